@@ -461,6 +461,13 @@ class HamiltonianChain(MarkovChain):
             display_progress=bool(D["display_progress"]),
         )
 
+        # the mass is only created by the constructor when a start point is given
+        inv_mass = D["inv_mass"]
+        chain.mass = get_particle_mass(
+            inverse_mass=float(inv_mass) if inv_mass.ndim == 0 else array(inv_mass),
+            n_parameters=int(D["n_parameters"]),
+        )
+
         chain.temperature = 1.0 / chain.inv_temp
         chain.probs = list(D["probs"])
         chain.leapfrog_steps = list(D["leapfrog_steps"])
